@@ -1,6 +1,6 @@
 (* Proofs/C10Proofs.v — theorems behind C10 (hosvd / tucker_als), exact real arithmetic.
    1. the rank rule of hosvd.py:113-126 (transliterated in Model/C10Tucker.v)
-   2. user-given ranks (defect A-32) — refutation, exact characterisation, repaired rule
+   2. user-given ranks (after the A-32 repair): exactly ranks[n] columns; ncols_impl = ncols_spec
    3. error bound of (sequentially) truncated HOSVD over an abstract real inner-product space
    4. Tucker-ALS fit identity *)
 From Coq Require Import List Arith Lia Bool Reals Lra.
@@ -77,74 +77,61 @@ Proof.
       * cbn [skipn]. apply IH. lia.
 Qed.
 
-(* the rule as coded: ranks[k] = last index whose reverse cumulative eigenvalue sum exceeds the threshold; the code
-   keeps r = ranks[k] + 1 columns; the discarded energy is within the budget and r is the least such count *)
-Theorem rank_choice : forall (eig : list R) (t : R) (rk : nat),
+(* the rule as coded (after the A-32 repair): ranks[k] = 1 + last index whose reverse cumulative eigenvalue sum exceeds the
+   threshold = the number r of columns kept (pi[0:r]); the discarded energy is within the budget and r is the least such count *)
+Theorem rank_choice : forall (eig : list R) (t : R) (r : nat),
   Forall (fun x => 0 <= x) eig -> 0 <= t ->
-  auto_rank 0 Rplus Rltb eig t = Some rk ->
-  let r := (rk + 1)%nat in
-  (r <= length eig)%nat /\
-  (forall (A : Type) (p : list A), length p = length eig -> length (keep_cols rk p) = r) /\
+  auto_rank 0 Rplus Rltb eig t = Some r ->
+  (0 < r <= length eig)%nat /\
+  (forall (A : Type) (p : list A), length p = length eig -> length (keep_cols r p) = r) /\
   sumR (skipn r eig) <= t /\
   (forall r', (r' < r)%nat -> t < sumR (skipn r' eig)).
 Proof.
-  intros eig t rk Hp Ht H r. unfold auto_rank, where_gt in H. rewrite eigsum_suffix, suffix_sums_length in H.
-  apply last_where_some in H. destruct H as (Hlt & Hk & Hafter).
+  intros eig t r Hp Ht H. unfold auto_rank, last_above, where_gt in H.
+  destruct (last_opt _) as [rk|] eqn:E; [|discriminate]. inversion H; subst r. clear H.
+  rewrite eigsum_suffix, suffix_sums_length in E.
+  apply last_where_some in E. destruct E as (Hlt & Hk & Hafter).
   rewrite nth_suffix_sums in Hk. apply Rltb_true in Hk.
   repeat split.
-  - unfold r. lia.
-  - intros A p Hl. unfold keep_cols. rewrite firstn_length. unfold r. lia.
-  - unfold r. destruct (Nat.lt_ge_cases (rk + 1) (length eig)) as [Hin|Hout].
+  - lia.
+  - lia.
+  - intros A p Hl. unfold keep_cols. rewrite firstn_length. lia.
+  - destruct (Nat.lt_ge_cases (rk + 1) (length eig)) as [Hin|Hout].
     + specialize (Hafter (rk + 1)%nat ltac:(lia)). rewrite nth_suffix_sums in Hafter.
       apply Rltb_false in Hafter. lra.
     + rewrite skipn_all2 by lia. cbn. lra.
-  - intros r' Hr'. unfold r in Hr'.
+  - intros r' Hr'.
     pose proof (sumR_skipn_mono eig r' rk Hp ltac:(lia)). lra.
 Qed.
 
 (* the rule fails (IndexError in the code) only when the whole spectrum is within the budget *)
 Theorem rank_choice_total : forall (eig : list R) (t : R),
-  0 <= t -> t < sumR eig -> exists rk, auto_rank 0 Rplus Rltb eig t = Some rk.
+  0 <= t -> t < sumR eig -> exists r, auto_rank 0 Rplus Rltb eig t = Some r.
 Proof.
-  intros eig t Ht H. destruct (auto_rank 0 Rplus Rltb eig t) as [rk|] eqn:E; [eauto|exfalso].
-  unfold auto_rank, where_gt in E. rewrite eigsum_suffix, suffix_sums_length in E.
+  intros eig t Ht H. unfold auto_rank, last_above.
+  destruct (last_opt (where_gt 0 Rltb (eigsum 0 Rplus eig) t)) as [rk|] eqn:E; [eauto|exfalso].
+  unfold where_gt in E. rewrite eigsum_suffix, suffix_sums_length in E.
   destruct eig as [|x l]; [cbn in H; lra|].
   pose proof (last_where_none _ _ E 0%nat ltac:(cbn; lia)) as H0.
   cbv beta in H0. rewrite nth_suffix_sums in H0. apply Rltb_false in H0. cbn [skipn] in H0. contradiction.
 Qed.
 
 (* ---------------------------------------------------------------------------------------- *)
-(* 2. user-given ranks                                                                        *)
+(* 2. user-given ranks (A-32 repaired: pi[0:ranks[k]])                                         *)
 (* ---------------------------------------------------------------------------------------- *)
-Definition given_ranks_stmt : Prop :=
-  forall (A : Type) (rk : nat) (p : list A), (0 < rk <= length p)%nat -> length (keep_cols rk p) = rk.
+Theorem given_ranks : forall (A : Type) (rk : nat) (p : list A),
+  (rk <= length p)%nat -> length (keep_cols rk p) = rk.
+Proof. intros A rk p H. unfold keep_cols. rewrite firstn_length. lia. Qed.
 
-Theorem given_ranks_refuted : ~ given_ranks_stmt.
-Proof. intros H. specialize (H nat 1%nat [5; 7; 9]%nat ltac:(cbn; lia)). cbn in H. discriminate. Qed.
-
-(* exactly what the code returns: min(rk + 1, size) columns — the contract holds only for a full-size request *)
-Theorem given_ranks_partial : forall (A : Type) (rk : nat) (p : list A),
-  length (keep_cols rk p) = Nat.min (rk + 1) (length p) /\
-  ((0 < rk <= length p)%nat -> (length (keep_cols rk p) = rk <-> rk = length p)).
+(* number of columns of every factor, as coded = as the property demands (requested rank, or the automatic one) *)
+Theorem ncols_correct : forall (user_rank : nat) (eig : list R) (t : R),
+  Forall (fun x => 0 <= x) eig -> 0 <= t -> (user_rank <= length eig)%nat ->
+  ncols_impl 0 Rplus Rltb user_rank eig t = ncols_spec 0 Rplus Rltb user_rank eig t.
 Proof.
-  intros A rk p. unfold keep_cols. rewrite firstn_length. split; [reflexivity|]. intros H. lia.
-Qed.
-
-(* the repaired rule (fixes/C10-A-32.diff): ranks[k] holds the column count *)
-Theorem given_ranks_fixed : forall (A : Type) (rk : nat) (p : list A),
-  (rk <= length p)%nat -> length (keep_cols_fixed rk p) = rk.
-Proof. intros A rk p H. unfold keep_cols_fixed. rewrite firstn_length. lia. Qed.
-
-Theorem rank_choice_fixed : forall (eig : list R) (t : R) (r : nat),
-  Forall (fun x => 0 <= x) eig -> 0 <= t ->
-  auto_rank_fixed 0 Rplus Rltb eig t = Some r ->
-  (0 < r <= length eig)%nat /\ length (keep_cols_fixed r eig) = r /\
-  sumR (skipn r eig) <= t /\ (forall r', (r' < r)%nat -> t < sumR (skipn r' eig)).
-Proof.
-  intros eig t r Hp Ht H. unfold auto_rank_fixed in H.
-  destruct (auto_rank 0 Rplus Rltb eig t) as [k|] eqn:E; [|discriminate]. inversion H; subst.
-  destruct (rank_choice eig t k Hp Ht E) as (H1 & H2 & H3 & H4).
-  repeat split; auto; try lia. apply given_ranks_fixed. lia.
+  intros u eig t Hp Ht Hu. unfold ncols_impl, ncols_spec. destruct u as [|u].
+  - destruct (auto_rank 0 Rplus Rltb eig t) as [r|] eqn:E; [|reflexivity].
+    destruct (rank_choice eig t r Hp Ht E) as (_ & H2 & _). now rewrite H2.
+  - now rewrite given_ranks.
 Qed.
 
 (* ---------------------------------------------------------------------------------------- *)
@@ -334,10 +321,10 @@ Proof.
 Qed.
 
 Example rank_choice_example :
-  auto_rank 0 Rplus Rltb [9; 4; 1; 0] 2 = Some 1%nat /\ keep_cols 1 [3; 0; 2; 1]%nat = [3; 0]%nat.
+  auto_rank 0 Rplus Rltb [9; 4; 1; 0] 2 = Some 2%nat /\ keep_cols 2 [3; 0; 2; 1]%nat = [3; 0]%nat.
 Proof.
   split; [|reflexivity].
-  unfold auto_rank. rewrite eigsum_suffix. cbn [suffix_sums sumR]. unfold where_gt. cbn [length seq filter nth].
+  unfold auto_rank, last_above. rewrite eigsum_suffix. cbn [suffix_sums sumR]. unfold where_gt. cbn [length seq filter nth].
   assert (H0 : Rltb 2 (9 + (4 + (1 + (0 + 0)))) = true) by (apply Rltb_true; lra).
   assert (H1 : Rltb 2 (4 + (1 + (0 + 0))) = true) by (apply Rltb_true; lra).
   assert (H2 : Rltb 2 (1 + (0 + 0)) = false) by (apply Rltb_false; lra).
